@@ -161,5 +161,6 @@ EXPLANATION = (
     "fail to open; _read probes with os.access and opens read-only. R3: the per-file cache is keyed by the full path and all of "
     "it is refreshed when the path changes. With POSIX rename atomicity these imply that a reader sees exactly the finalized "
     "files and that set only grows. Does NOT decide failures outside the protocol (EMFILE, permissions) or timing.")
+TECHNIQUE = ("C02's protocol rules + package call graph reachability (read roles), CFG checks of vanished-file tolerance, cache key def-use")
 ASSUMPTIONS = c02.ASSUMPTIONS + ["a finalized RF file is never modified (C02.R3), so cached index data cannot go stale"]
 FILES = c02.FILES
